@@ -371,6 +371,9 @@ func c04Pool(tier string) (cmds []database.Command, plats [][]string) {
 		{Command: "mytool PIPE it", Description: "pipe word"},
 		{Command: "mytool a && b", Description: "and", Pipeline: false},
 		{Command: "mytool flag", Description: "flag", Pipeline: true},
+		{Command: "mytool serve &", Description: "lone ampersand: not a pipeline"},
+		{Command: "mytool x > out 2>&1", Description: "lone redirect: not a pipeline"},
+		{Command: "mytool x >> log", Description: "append redirect"},
 	}
 	for _, tags := range pool {
 		for _, k := range kinds {
